@@ -14,6 +14,8 @@ claimed = {
  "C06": ("W-lb", "WRR clause: for seeded weight vectors (1..128), health patterns and preceding host-set replacements, the bounded-lag inequality is checked over every window of a 50..450 pick history of the real WRR balancer", "the zero-weight-cluster clause (route weighted clusters) is not built yet in this snapshot; the 'probability exactly weight/total' clause is not decided (DESIGN.md section 4 C06)", "4 C06"),
  "C16": ("W-health", "(a) 2-4 goroutines each owning one condition bit of one address, set/clear interleaved at the yield point between load and store of the flag word; per-operation and final invariants; (b) the real healthChecker/sessionChecker on the fake clock with a scripted session (ok, fail, slow, timeout, late answer) against a reference threshold automaton over the check outcomes", "callbacks are compared in order with the scripted outcome of the check of the same index", "4 C16"),
  "C09": ("W-proxy", "HTTP/1 pool, a ping-pong xprotocol (bolt wire format behind PoolMode=PingPong, registered through the public codec API) and the multiplex pool: pool books (verif accessors) against the simulated network's truth at every quiescent point, at most one exchange in flight per ping-pong connection as seen by the upstream actor, no lease outstanding at idle, and a capacity probe of max_connections/max_requests concurrent fresh requests after every history of replies, resets, timeouts, refusals, overflows and closes", "binding pool (connpool_binding.go) and the HTTP/2 pool are not exercised; 'dirty reuse' is judged from the upstream's view (a request arriving before the previous exchange completed)", "4 C09"),
+ "C07": ("W-proxy", "every seed is run under 4 transport segmentations (whole frames, random cuts, 1-7 byte pieces, single bytes; different latencies and schedules) of the same workload on fixed-protocol and Auto listeners (bolt, boltv2, HTTP/1); a scheduling-independent digest of what every upstream and client saw must be identical, and the C01 oracle (each request forwarded exactly once, byte-identical) holds in each", "dubbo, dubbo-thrift, tars and HTTP/2 peers are not built yet in this snapshot", "4 C07"),
+ "C08": ("W-proxy", "malformed-input clients (single-field corruptions of valid frames: every length field <- 0,1,2,3,max,truth+-1,2^31; truncation (+FIN); random bytes; flipped bytes; inserted bytes; HTTP/1 absurd Content-Length / bad chunk size / header without colon) and upstreams answering with garbage or corrupted replies, next to ordinary clients whose requests must still each get exactly one outcome in bounded time with no cross-talk; the process must survive (a Go panic/fatal error with a MOSN frame on the stack is a violation), no allocation > 64 MiB for announced-but-unarrived bytes by MOSN's own decoders", "bolt, boltv2, HTTP/1 and the Auto matcher only in this snapshot; HPACK / HTTP/2 frames not yet; a step that never quiesces is reported as infrastructure failure (exit 2), not as a violation", "4 C08"),
 }
 
 na = {
@@ -22,7 +24,7 @@ na = {
  "C15": "subset selection and both builders are pure functions of (host metadata, selectors, fallback policy, criteria); no schedule, time, fault or history in the statement",
  "C19": "load/dump round trip is a pure function of the configuration; no time, I/O fault, concurrency or history in the statement",
 }
-pending = ["C07","C08","C11","C12","C14","C17","C18","C20"]
+pending = ["C11","C12","C14","C17","C18","C20"]
 
 def main():
     checks=[]
